@@ -780,7 +780,7 @@ where
             let n = if liar { pre.len() } else { before.len() };
             let take = scale(b, n + 2);
             // 0 drop, 1 run to the end, 2 forget, 3.. = adaptor probe (nth/last/fold/count/skip) on the rest
-            let end = (c as usize * 8) >> 7;
+            let end = (c as usize * (3 + mmv_base::probe::NPROBES)) >> 7;
             let pk = ((c & 0x0f) as usize * (n + 2)) >> 4;
             cx.bump(S::drains);
             if take > 0 && take < n && end != 1 {
@@ -930,7 +930,7 @@ where
             let mut crest: Option<Vec<usize>> = None;
             let mut ccount: Option<usize> = None;
             let mut pout: Option<ProbeOut<usize>> = None;
-            let pwhich = ((a >> 5) as usize * 5) >> 3;
+            let pwhich = ((a >> 4) as usize * mmv_base::probe::NPROBES) >> 4;
             let pk = (((a >> 1) & 0x0f) as usize * (n + 2)) >> 4;
             loop {
                 hints.push(mmv_base::probe::hint_of(&it));
@@ -1015,7 +1015,7 @@ where
             let before = std::mem::take(&mut slot.model);
             let n = if liar { pre.len() } else { before.len() };
             let take = scale(b, n + 2);
-            let end = (c as usize * 8) >> 7;
+            let end = (c as usize * (3 + mmv_base::probe::NPROBES)) >> 7;
             let pk = ((c & 0x0f) as usize * (n + 2)) >> 4;
             cx.bump(S::consumes);
             if take > 0 && take < n && end != 1 {
